@@ -61,6 +61,9 @@ def models():
         dict(tag="unary-of-param", obj=("bin", "+", ("bin", "*", ("un", "exp", ("un", "neg", P1)), sq(X)), ("bin", "*", ("un", "sqrt", P2), Y)), sense="min",
              cons=[("le", ("bin", "+", X, Y), ("un", "sin", P1))], bounds={}),
         dict(tag="param-exponent", obj=("bin", "+", ("bin", "**", X, P1), ("bin", "**", ("bin", "*", X, Y), P2)), sense="min", cons=[], bounds={"x": (0.5, 3.0), "y": (0.5, 3.0)}),
+        # constraints WITHOUT decision variables (a budget between two parameters, a parameter against a number)
+        dict(tag="parameter-only-constraints", obj=("bin", "+", sq(("bin", "-", X, P1)), sq(Y)), sense="min",
+             cons=[("le", P1, P2), ("ge", ("bin", "+", X, Y), ("num", 1.0)), ("ge", ("bin", "*", P2, ("num", 2.0)), ("num", 1.0))], bounds={}),
         dict(tag="linear-looking", obj=("bin", "+", ("bin", "*", P1, X), ("bin", "*", P2, Y)), sense="min", cons=[("le", ("bin", "+", X, Y), P1), ("ge", X, ("num", 0.0))], bounds={"y": (0.0, 5.0)}),
     ]
 
